@@ -283,7 +283,7 @@ def checks(h):
     hints = hint_strategy()
     s_gen = st.fixed_dictionaries({"kind": st.just("gen"),
                                    "mod": irgen.module_recipes(depth=2, hints=hints, max_ops=3, max_blocks=3)})
-    h.hyp("gen", s_gen, lambda r: run(h, r), h.scale(50, 1500), 1)
+    h.hyp("gen", s_gen, lambda r: run(h, r), h.scale(50, 600), 1)
     nchunks = len(corpus.chunks())
     if h.quick:
         s_c = st.fixed_dictionaries({"kind": st.just("corpus"), "chunk": st.integers(0, nchunks - 1),
